@@ -2,6 +2,7 @@ package icmp
 
 import (
 	"context"
+	"errors"
 	"net"
 	"sync"
 	"time"
@@ -36,6 +37,11 @@ func (s SessionState) String() string {
 	}
 }
 
+// ErrSessionKeyCleared is returned by Encrypt and Decrypt when the session was
+// established with an E2E session key and that key has been cleared (the
+// session is closed). Data is dropped rather than sent or accepted in plaintext.
+var ErrSessionKeyCleared = errors.New("session key cleared: session closed")
+
 // Session represents an active ICMP echo tunnel through the mesh.
 type Session struct {
 	mu sync.RWMutex
@@ -58,6 +64,7 @@ type Session struct {
 
 	// Encryption
 	SessionKey *crypto.SessionKey
+	encrypted  bool // a session key was installed at establishment: never fall back to plaintext afterwards
 
 	// Cleanup
 	ctx    context.Context
@@ -187,6 +194,9 @@ func (s *Session) SetSessionKey(key *crypto.SessionKey) {
 	defer s.mu.Unlock()
 
 	s.SessionKey = key
+	if key != nil {
+		s.encrypted = true
+	}
 }
 
 // GetSessionKey returns the E2E encryption session key.
@@ -198,7 +208,9 @@ func (s *Session) GetSessionKey() *crypto.SessionKey {
 }
 
 // Encrypt encrypts data using the session key.
-// Returns the original data if no session key is set.
+// Returns the original data if the session was established without a session
+// key (keyless mode). Once a key has been installed, a cleared key (Close)
+// makes Encrypt fail with ErrSessionKeyCleared instead of passing the data through.
 //
 // The RLock is held for the duration of the crypto operation so that a
 // concurrent Close (which zeros the key bytes) cannot race a use of the
@@ -210,6 +222,9 @@ func (s *Session) Encrypt(plaintext []byte) ([]byte, error) {
 	defer s.mu.RUnlock()
 
 	if s.SessionKey == nil {
+		if s.encrypted {
+			return nil, ErrSessionKeyCleared
+		}
 		return plaintext, nil
 	}
 
@@ -217,7 +232,7 @@ func (s *Session) Encrypt(plaintext []byte) ([]byte, error) {
 }
 
 // Decrypt decrypts data using the session key.
-// Returns the original data if no session key is set.
+// Returns the original data only in keyless mode; see Encrypt.
 //
 // See Encrypt for the lock-holding rationale.
 func (s *Session) Decrypt(ciphertext []byte) ([]byte, error) {
@@ -225,6 +240,9 @@ func (s *Session) Decrypt(ciphertext []byte) ([]byte, error) {
 	defer s.mu.RUnlock()
 
 	if s.SessionKey == nil {
+		if s.encrypted {
+			return nil, ErrSessionKeyCleared
+		}
 		return ciphertext, nil
 	}
 
